@@ -38,6 +38,11 @@ mod c15;
 mod c16;
 mod c17;
 mod concat;
+mod c18;
+#[cfg(feature = "statictz")]
+mod gen_static {
+    include!(env!("JV_GEN_STATIC"));
+}
 
 fn main() {
     let args: Vec<String> = std::env::args().skip(1).collect();
@@ -50,6 +55,16 @@ fn main() {
     let code = match args[0].as_str() {
         "distinct" => {
             distinct(&args[1..]);
+            0
+        }
+        "tzifok" => {
+            for p in &args[1..] {
+                if let Ok(b) = std::fs::read(p) {
+                    if jiff::tz::TimeZone::tzif("X/Y", &b).is_ok() {
+                        println!("{}", p);
+                    }
+                }
+            }
             0
         }
         "selfcheck" => match cal::self_check() {
@@ -95,6 +110,7 @@ fn prop_fn(name: &str) -> Option<fn(&mut rep::Ctx)> {
         "c15" => c15::run,
         "c16" => c16::run,
         "c17" => c17::run,
+        "c18" => c18::run,
         _ => return None,
     })
 }
